@@ -311,6 +311,29 @@ Theorem C01_concurrent_calls : forall e k sid_req sid_rsp max impl (Pc Ps : pfil
       conc_result e sid_rsp max chunks_p f args o (mkreq e f args o ow id sv t) =
       fst (call e sid_req sid_rsp max impl (filters_of inv_res Pc) (filters_of disp_res Ps) i f args o ow id sv t).
 Proof. intros e k sid_req sid_rsp max impl Pc Ps i qs sent cq written cp Hwf Hk Hq Hp Hm. exact (EndToEndFull.concurrent_calls e k Hwf Hk sid_req sid_rsp Hq Hp max Hm impl Pc Ps i qs sent cq written cp). Qed.
+(* ---- the CURRENT source of ServantProxy.doInvoke maps the reply to the caller's error as the model's map_reply ----
+   Gen/Translated.v is regenerated from tars/servant.go and tars/errors.go on every run: the statement that turns
+   IRet / SResultDesc of the reply into nil, a plain error or a tars.Error pointer, GetErrorCode and the Error method. The
+   caller continues with the reply exactly when map_reply hands it on; otherwise GetErrorCode of the returned error is the
+   model's code and its text the model's (for an empty SResultDesc: Sprintf("basef error code %d", IRet)). *)
+From TarsV Require Import Xlate.GoSem Gen.Translated Xlate.ReplyEquiv.
+Theorem C01_source_error_mapping : forall (p : rsppkt) (sprintf : list N -> Z -> list N),
+  match tr_doInvoke_reply (p_ret p) (p_desc p) k_basef_TARSSERVERSUCCESS sprintf with
+  | Next _ => map_reply p = VResp p
+  | Return e => exists code msg sys, map_reply p = VErr code msg sys /\
+      go_err_code e = Return code /\
+      (if sys then p_desc p = []%list /\ go_err_text e = sprintf code_fmt (p_ret p) else go_err_text e = msg)
+  | Panic => False
+  end.
+Proof. exact ReplyEquiv.tr_doInvoke_reply_equiv. Qed.
+Theorem C01_source_error_kind : forall (p : rsppkt) sprintf e,
+  tr_doInvoke_reply (p_ret p) (p_desc p) k_basef_TARSSERVERSUCCESS sprintf = Return e ->
+  p_ret p <> 0%Z /\ match e with
+                  | GoErrVal v => p_ret p <> 1%Z /\ go_tars_Error_Code v = p_ret p
+                  | GoErrNew _ => p_ret p = 1%Z
+                  | GoErrNil => False
+                  end.
+Proof. exact ReplyEquiv.tr_doInvoke_reply_kind. Qed.
 
 Print Assumptions C01_transparent_ok_any_outs.
 Print Assumptions C01_prefilled_out_witness.
@@ -333,3 +356,5 @@ Print Assumptions C01_filters_run.
 Print Assumptions C01_concurrent_partial.
 Print Assumptions C01_concurrent_any_order.
 Print Assumptions C01_concurrent_calls.
+Print Assumptions C01_source_error_mapping.
+Print Assumptions C01_source_error_kind.
